@@ -128,6 +128,7 @@ extern struct world W;
 void w_begin(void);                                          /* drop previous world */
 extern bool NEXT_WORLD_USE_MUTEX;                            /* the next world is initialised with the mock mutex interface */
 struct cat_command *w_group(size_t ncmd, bool disable);      /* returns the group's zeroed command array */
+void w_group_view(struct cat_command *arr, size_t ncmd, bool disable);   /* second registration of (a prefix of) another group's array */
 struct cat_variable *w_vars(struct cat_command *c, size_t nv);
 extern unsigned EMPTY_TABLE_PM;                              /* per-mille of w_vars(c, 0) calls that leave var pointing at an empty table instead of NULL */
 void *w_vdata(struct cat_variable *v, size_t size);          /* exact-size storage */
